@@ -144,6 +144,12 @@ def build_node(node, objs, notes=None):
       return fdl.TaggedValue(tg)
     return fdl.TaggedValue(tg, default=deref(node['value'], objs))
   if k == 'B':
+    if node['bt'] == 'DictConfig':
+      from fiddle.experimental import dict_config
+      cfg = dict_config.DictConfig(**{n: deref(r, objs) for n, r in node.get('kw', {}).items()})
+      for key, tname in node.get('tags', []):
+        fdl.add_tag(cfg, key, vtags.ALL[tname])
+      return cfg
     fn = resolve_fn(node['fn'])
     cfg = _BT[node['bt']](
         fn, *[deref(r, objs) for r in node.get('pos', [])],
